@@ -320,12 +320,27 @@ func (e *Engine) onData(pkt *spec.Data, sigCovered enc.Wire, raw enc.Wire, pitTo
 func (e *Engine) onNack(name enc.Name, reason uint64) {
 	e.pitLock.Lock()
 	defer e.pitLock.Unlock()
-	n := e.pit.ExactMatch(name)
+	// As in Express: an Interest with an implicit digest is filed under the name without it
+	nodeName := name
+	hasDigest := false
+	var impSha256 []byte = nil
+	if len(name) > 0 && name[len(name)-1].Typ == enc.TypeImplicitSha256DigestComponent {
+		hasDigest = true
+		impSha256 = name[len(name)-1].Val
+		nodeName = name[:len(name)-1]
+	}
+	n := e.pit.ExactMatch(nodeName)
 	if n == nil {
 		e.log.WithField("name", name.String()).Warn("Received Nack for an unknown interest. Drop.")
 		return
 	}
+	newList := make([]*pendInt, 0, len(n.Value()))
 	for _, entry := range n.Value() {
+		// Only the Interests with the Nacked name, the implicit digest included
+		if (entry.impSha256 != nil) != hasDigest || !bytes.Equal(entry.impSha256, impSha256) {
+			newList = append(newList, entry)
+			continue
+		}
 		entry.timeoutCancel()
 		if entry.callback != nil {
 			entry.callback(ndn.ExpressCallbackArgs{
@@ -336,10 +351,10 @@ func (e *Engine) onNack(name enc.Name, reason uint64) {
 			e.log.Fatalf("PIT has empty entry. This should not happen. Please check the implementation.")
 		}
 	}
-	// Only the entries of the Nacked name are resolved: empty this node (a timer that
-	// already fired and waits for the lock must not find them again) and unlink it
+	// Only the entries of the Nacked name are resolved: take them out of this node (a timer
+	// that already fired and waits for the lock must not find them again) and unlink it
 	// only if nothing is pending below; pending ancestors stay.
-	n.SetValue(nil)
+	n.SetValue(newList)
 	n.DeleteIf(func(lst []*pendInt) bool {
 		return len(lst) == 0
 	})
